@@ -685,7 +685,8 @@ func (f Function) lambdaPrint(ps *ast.PrintState, out *strings.Builder) string {
 		// A body whose text starts with { (a map literal operand, x=>{"a":1}+m) would read back as a block.
 		scratch := strings.Builder{}
 		f.Body.PrettyPrint(&ast.PrintState{Out: &scratch, Compact: ps.Compact})
-		needBraces = strings.HasPrefix(scratch.String(), "{")
+		// ... and a body printing as nothing (only a comment, in compact mode) needs its braces to exist at all.
+		needBraces = strings.HasPrefix(scratch.String(), "{") || scratch.Len() == 0
 	}
 	if needBraces {
 		out.WriteString("{")
